@@ -1797,6 +1797,15 @@ def run(status, changed, fns):
         status["failed"]["loops bfe"] = f"loops: internal: {type(ex).__name__}: {ex}"
     # ---- END BT2 hook
 
+    # ---- BEGIN BT4 hook: sponge functions, MMR peak calculation, Merkle construction (tools/rs2lean_bt4.py); it reuses the
+    # registries rs2lean_bfe.run left in rs2lean_bfe.CTX and restores everything it patches
+    try:
+        import rs2lean_bt4
+        rs2lean_bt4.run(status, changed, fns, read_src)
+    except Exception as ex:      # never fatal for the other groups; recorded as a refusal
+        status["failed"]["bt4"] = f"bt4: internal: {type(ex).__name__}: {ex}"
+    # ---- END BT4 hook
+
     u_rel = "twenty-first/src/amount/u32s.rs"
     arr = ("array", "u32")
     kw = lambda anchor: {"after": anchor, "self_ty": arr, "generic": "N"}
